@@ -217,3 +217,19 @@ def tree_digest(path):
                 h.update(f.read())
         h.update(b"\1")
     return h.hexdigest()[:20]
+
+
+def to_model(exp):
+    """gen.Model view of expected contents (for the covering-grid / integral reference ops)"""
+    m = gen.Model()
+    m.ndims = exp.ndims
+    m.names = list(exp.names)
+    m.nfields = len(m.names)
+    m.nlevels = len(exp.levels)
+    m.time = exp.time
+    m.geo_low, m.geo_high = list(exp.geo_low), list(exp.geo_high)
+    m.dx = [list(d) for d in exp.dx]
+    m.grid_sizes = [list(g) for g in exp.grid_sizes]
+    m.boxes = [[gen.Box(b["lo"], b["hi"]) for b in lv] for lv in exp.levels]
+    m.data = [[b["arr"] for b in lv] for lv in exp.levels]
+    return m
